@@ -240,6 +240,9 @@ class Variance(Accumulator):
         self.var = Mean()
 
     def _accumulate_obj(self, obj):
+        if isinstance(obj, np.ndarray) and np.may_share_memory(obj, self.mean.value):
+            # a view of the running mean itself (which is updated in place below): keep its present values
+            obj = obj.copy()
         delta1 = obj - self.mean.value
         self.mean += obj
         # (obj - M_n-1) * (obj - M_n) -- last and current iteration mean
@@ -310,6 +313,9 @@ class Covariance(Accumulator):
         self._cov = Mean()
 
     def _accumulate_obj(self, obj):
+        if isinstance(obj, np.ndarray) and np.may_share_memory(obj, self.mean.value):
+            # a view of the running mean itself (which is updated in place below): keep its present values
+            obj = obj.copy()
         delta1 = obj - self.mean.value
         self.mean += obj
         delta2 = (obj - self.mean.value)
